@@ -10,7 +10,7 @@ the solo run of the same operation with the explicit quantity `Unit(x)` in the u
 start of that operation."""
 from pbsim import gen, simgen
 from pbsim.names import DIMS, SLOTS
-from pbsim.simprop import minimise_spec, record, replay_spec, run_spec, summarise_sim
+from pbsim.simprop import minimise_spec, record, replay_spec, run_spec, summarise_sim, sweep_depth1
 from pbsim.util import rng_for
 from pbsim.world import empty_world
 
@@ -356,9 +356,17 @@ def _bare_zero_params(x, name=""):
 
 def run_case(seed, tier, idx):
     spec = gen_spec(seed, tier)
-    hist, viol, stats = run_spec(spec)
-    viol = [refine(v, spec, hist) for v in viol]
-    rec = record(spec, hist, viol, stats)
+    rec = None
+    if spec["mode7"] == "race" and len(spec["programs"]) == 2:
+        # one client + the admin: place the WHOLE flip sequence at each of n pre-emption points of the client
+        r = rng_for(seed, "sweep").random()
+        p_d1, n = (0.35, 24) if tier == "thorough" else (0.08, 8)
+        if r < p_d1:
+            rec = sweep_depth1(spec, None, n, post=lambda s, h, v: [refine(x, s, h) for x in v])
+    if rec is None:
+        hist, viol, stats = run_spec(spec)
+        viol = [refine(v, spec, hist) for v in viol]
+        rec = record(spec, hist, viol, stats)
     rec["mode7"] = spec["mode7"]
     rec["bare_args"] = sum(_count_bare(op) for p in spec["programs"] for op in p)
     rec["bare_zero_args"] = sum(len(_bare_zero_params(op)) for p in spec["programs"] for op in p)
